@@ -409,3 +409,10 @@ br('C05', 'seed2-deepcopy-memo-outside-loop', [(PT, "        while not self._sto
 br('C01', 'seed2-exitcode-shortcut-discards-outcome', (PR, "        if self._result is None:\n            #assert not self._comms[0].empty()", "        if self._result is None:\n            if self._child.exitcode:\n                self._result = (False, None)\n                return self._result\n            #assert not self._comms[0].empty()"), 'fallback-without-reading-the-pipe')
 br('C07', 'seed2-next-input-taken-on-live-failure', (PO, "                                logger.exception('Enqueueing failed for current input and worker {} but the worker is still alive - will try next input', worker)\n                                continue", "                                logger.exception('Enqueueing failed for current input and worker {} but the worker is still alive - will try next input', worker)\n                                has_data, from_retries, inp = next_inputs(worker)\n                                continue"), 'input-taken-in-loop')
 br('C10', 'seed2-chunked-send', (RM, "        sock.sendall(data_len + data)", "        sock.sendall(data_len)\n        view = memoryview(data)\n        for offset in range(0, len(view), 1 << 20):\n            sock.send(view[offset:offset + (1 << 20)])"), 'write:send')
+
+br('C04', 'seed2-sigterm-handler-in-child', (PR, "        self._terminate_req = False\n        self._ctrl_thread_sync = threading.Event()", "        import signal\n        signal.signal(signal.SIGTERM, lambda s, f: (_ for _ in ()).throw(SystemExit(143)))\n        self._terminate_req = False\n        self._ctrl_thread_sync = threading.Event()"), 'sigterm-handler-in-child')
+
+br('C03', 'seed2-poll-none-becomes-nonblocking', (U, "        if time == 0:\n            return self._pipe.poll()\n        else:\n            return self._pipe.poll(timeout)", "        if not timeout:\n            return self._pipe.poll()\n        return self._pipe.poll(timeout)"), 'poll-drops-infinite-timeout')
+ok('poll-typo-fixed-properly', (U, "        if time == 0:\n            return self._pipe.poll()\n        else:\n            return self._pipe.poll(timeout)", "        if timeout == 0:\n            return self._pipe.poll()\n        else:\n            return self._pipe.poll(timeout)"))
+br('C08', 'seed2-redistribution-fixed-count', (PO, "                while self._retries:\n                    idle = get_next_idle_worker()", "                for _ in range(len(self._retries)):\n                    idle = get_next_idle_worker()"), 'redistribution-loop')
+br('C06', 'seed2-marker-forwarded-conditionally', (PRM, "                        self._results_pipe.child_end.put(result)\n                        last_partial_result_signalled = True\n                        if remote_counter != counter:", "                        if remote_counter == counter:\n                            self._results_pipe.child_end.put(result)\n                        last_partial_result_signalled = True\n                        if remote_counter != counter:"), 'exit-without-marker')
